@@ -146,7 +146,7 @@ func (e *Engine) evalPostNamed(sp *ssa.Package, pf postFn, fn *ssa.Function, arg
 		oa := e.bindLowered(of, e.entryProvider(fn, args, bind, entry))
 		v := e.pureCallIn(sp, of, oa, nil, entry)[0]
 		if sv, ok := v.(SliceV); ok && sv.Arr != nil {
-			na := &Arr{Elem: sv.Arr.Elem, Leaves: sv.Arr.Leaves, Name: sv.Arr.Name + "_old"}
+			na := &Arr{Elem: sv.Arr.Elem, Leaves: sv.Arr.Leaves, Name: sv.Arr.Name + "_old", Orig: sv.Arr}
 			e.ncell++
 			na.id = e.ncell
 			m := map[string]string{}
